@@ -11,10 +11,13 @@ String derivations (second component): "built from a string" is enumerated by DE
 hand-picked list: a derivation tree  element = atom token x own count,  implicit group = leading
 count x 1..3 adjacent elements,  explicit group = '(' composite ')' x group count,  composite =
 groups joined by '', ' ', '+' or ' + '  is rendered to text by this module and weighed by this module
-(exact Fractions); the library parses the text.  Every tree of the tier lists (class STR_TIERS) is
+(exact Fractions); the library parses the text.  Every tree of the tier lists (str_tiers) is
 run; the single groups are also the roots of a depth-1 operator walk.  A wrong string is attributed to
 its smallest sub-derivation that is wrong on its own; the signature names that shape (atoms
-abstracted): 'atoms:str:nXm' = leading count in front of one element carrying its own count."""
+abstracted): 'atoms:str:nXm' = leading count in front of one element carrying its own count.
+
+Argument histories (third component, class ArgModel): one caller-owned argument object, formula(c)
+called repeatedly with the caller updating c in place in between; see META rule (3)."""
 from fractions import Fraction
 from .. import explore
 from ..common import Acc, load_pt, close, chunks, rotate, jdump
@@ -28,18 +31,24 @@ META = dict(
           "explicit group = parenthesised composite x group count, nested twice; composite = groups joined by "
           "'', ' ', '+', ' + '), each tree rendered to text and weighed by the module, parsed by the library; "
           "distinct = distinct text; non-trivial = at least one written count or two parts.  Every single-group "
-          "string (bare and parenthesised) is also the root of a depth-1 operator walk."),
+          "string (bare and parenthesised) is also the root of a depth-1 operator walk.  (3) argument histories: for "
+          "one caller-owned argument object c of every initializer kind (mapping, nested list, tuple holding a list, "
+          "formula, string, blank string, None, atom) every sequence of the events formula(c) / c updated in place by "
+          "the caller (3 ways per kind) / first result += g; after every event c is what the caller made it, every "
+          "earlier result keeps its composition, a new result has the composition of c as it is now."),
     bound=dict(quick="all operator sequences of depth <= 2 over the full alphabet and depth 3 over the "
-                     "reduced operand alphabet; string derivations: lists of STR_TIERS['quick'] - leading count "
+                     "reduced operand alphabet; string derivations: lists of str_tiers('quick') - leading count "
                      "{-, 2, 0.5, 3} x 8 atom tokens (element, D, isotope, ions, isotope ion) x own count {-, 2, 0.5} "
                      "for one and two elements per group in full, two groups x 3 separators, parenthesised and "
-                     "twice nested forms over reduced alphabets",
+                     "twice nested forms over reduced alphabets; argument histories of <= 5 events",
                thorough="all operator sequences of depth <= 3 over the "
                         "full alphabet, depth 4 over the reduced one, second atom alphabet (T, isotope ions); string "
-                        "derivations: STR_TIERS['thorough'] (count spellings 3, 1.5, 10, '.5' added, three elements per "
-                        "group, larger reduced alphabets) over both atom alphabets"),
+                        "derivations: str_tiers('thorough') (count spellings 3, 1.5, 10, '.5' added, three elements per "
+                        "group, larger reduced alphabets) over both atom alphabets; argument histories of <= 6 events"),
     assumptions=["neutral element / isotope masses are read from the library (their correctness is C06)",
                  "multipliers are dyadic rationals, so exact Fraction counts equal float counts to 1e-12",
+                 "a formula is a value: after it has been built it does not follow later in-place changes that the caller "
+                 "makes to the list / mapping / formula it was built from (the library copies with _immutable)",
                  "strings: 'n X_m' is n times the part 'X_m'; a leading count belongs to the adjacent elements that "
                  "follow it up to the next separator, parenthesis or white space (the library's documented grouping rule)",
                  "strings left out because the text does not say how they split into parts: an unseparated group after "
@@ -638,6 +647,236 @@ def _srepr(s):
     return str(s) if not hasattr(s, "charge") or s.charge == 0 else "%s{%+d}" % (s.element, s.charge)
 
 
+# ---------------------------------------------------------------- caller-owned argument objects
+ARG_KINDS = ("dict", "list", "tuple", "formula", "str", "blank", "none", "atom")
+ARG_EVENTS = (("call",), ("mut", 1), ("mut", 2), ("mut", 3), ("iadd_first",))
+
+
+class ArgModel(OpModel):
+    """Histories over ONE argument object c owned by the caller: formula(c) called repeatedly, c updated in place
+    by the caller in between (count changed, atom added, atom removed / nested part changed), the first result
+    extended in place.  After every event: c is what the caller made it (deep comparison), every result ever
+    returned still has the composition c had when it was built (+ what was added to it with +=), and a new
+    result has the composition c has now."""
+    name = "C02 argument histories"
+
+    def __init__(self):
+        OpModel.__init__(self, 0)
+        self.kind = None
+        self.ahist = ()
+
+    def _viol(self, acc, sig, hist, expected, observed):
+        acc.violation(sig, dict(arg_kind=self.kind, arg_history=[list(e) for e in self.ahist]),
+                      expected=expected, observed=observed, standalone=self.arg_snippet(self.kind, self.ahist))
+
+    # -- the argument object, its mutations, and their python text
+    def make(self, kind):
+        a = self.B.A
+        H, O, D = a["H"], a["O"], a["D"]
+        if kind == "dict":
+            return {H: 2, O: 1}
+        if kind == "list":
+            return [(2, H), (1, [(1, O), (1, H)])]
+        if kind == "tuple":
+            return ((2, H), (1, [(1, O), (1, H)]))
+        if kind == "formula":
+            return self.B.formula([(2, H), (1, O)])
+        return dict(str="H2O", blank=" ", none=None, atom=H)[kind]
+
+    MAKE_CODE = dict(dict="c = {pt.H: 2, pt.O: 1}", list="c = [(2, pt.H), (1, [(1, pt.O), (1, pt.H)])]",
+                     tuple="c = ((2, pt.H), (1, [(1, pt.O), (1, pt.H)]))", formula="c = formula([(2, pt.H), (1, pt.O)])",
+                     str="c = 'H2O'", blank="c = ' '", none="c = None", atom="c = pt.H")
+    MUT_CODE = {("dict", 1): "c[pt.H] = 3", ("dict", 2): "c[pt.Fe.ion[2]] = 0.5",
+                ("dict", 3): "c.pop(pt.O) if pt.O in c else c.update({pt.O: 1})",
+                ("list", 1): "c[0] = (3, pt.H)", ("list", 2): "c.append((0.5, pt.Fe.ion[2]))",
+                ("list", 3): "c[1][1][0] = (2, pt.O)",
+                ("tuple", 1): "c[1][1][0] = (2, pt.O)", ("tuple", 2): "c[1][1].append((0.5, pt.Fe.ion[2]))",
+                ("tuple", 3): "del c[1][1][-1]",
+                ("formula", 1): "c += formula(pt.H)", ("formula", 2): "c += formula(pt.Fe.ion[2])",
+                ("formula", 3): "c += c"}
+
+    def mutate(self, kind, c, k):
+        """The caller updates the argument in place; returns c (the same object)."""
+        a = self.B.A
+        H, O, Fe2 = a["H"], a["O"], a["Fe2"]
+        if kind == "dict":
+            if k == 1:
+                c[H] = 3
+            elif k == 2:
+                c[Fe2] = 0.5
+            elif O in c:
+                del c[O]
+            else:
+                c[O] = 1
+        elif kind == "list":
+            if k == 1:
+                c[0] = (3, H)
+            elif k == 2:
+                c.append((0.5, Fe2))
+            else:
+                c[1][1][0] = (2, O)
+        elif kind == "tuple":
+            if k == 1:
+                c[1][1][0] = (2, O)
+            elif k == 2:
+                c[1][1].append((0.5, Fe2))
+            else:
+                del c[1][1][-1]
+        elif kind == "formula":
+            if k == 1:
+                c += self.B.formula(H)
+            elif k == 2:
+                c += self.B.formula(Fe2)
+            else:
+                c += c
+        else:
+            raise ValueError((kind, k))
+        return c
+
+    def enabled(self, kind, c, ev, ncalls):
+        if ev[0] == "mut":
+            if kind not in ("dict", "list", "tuple", "formula"):
+                return False
+            return not (kind == "tuple" and ev[1] == 3 and len(c[1][1]) <= 1)
+        if ev[0] == "iadd_first":
+            return ncalls > 0
+        return True
+
+    def weigh(self, kind, c):
+        """Reference composition of the argument as it is now (own walker, exact Fractions)."""
+        if kind == "dict":
+            return dict((k, Fraction(v)) for k, v in c.items())
+        if kind in ("list", "tuple"):
+            return _weigh_seq(c)
+        if kind == "formula":
+            return _weigh_seq(c.structure)
+        if kind == "str":
+            return {self.B.A["H"]: Fraction(2), self.B.A["O"]: Fraction(1)}
+        if kind == "atom":
+            return {c: Fraction(1)}
+        return {}
+
+    def snap(self, kind, c):
+        """Deep, comparable picture of the argument object."""
+        if kind == "dict":
+            return sorted((str(k), id(k), v) for k, v in c.items())
+        if kind in ("list", "tuple"):
+            return _deep(c)
+        if kind == "formula":
+            return (_srepr(c.structure), sorted((k, repr(v)) for k, v in c.__dict__.items() if k != "structure"))
+        return repr(c)
+
+    def arg_snippet(self, kind, ahist):
+        lines = ["import periodictable as pt", "from periodictable import formula", self.MAKE_CODE[kind], "L = []"]
+        for ev in ahist:
+            if ev[0] == "call":
+                lines.append("L.append(formula(c))")
+            elif ev[0] == "mut":
+                lines.append(self.MUT_CODE[(kind, ev[1])])
+            else:
+                lines.append("L[0] += formula(pt.O[18])")
+        lines.append("print(c)")
+        lines.append("for f in L: print(repr(f.structure), f.atoms, f.mass, f.charge)")
+        return "\n".join(lines) + "\n"
+
+    def run_history(self, kind, ahist, acc):
+        """Execute one history with the oracle after every event; returns False at the first violation."""
+        self.kind = kind
+        c = self.make(kind)
+        results = []          # [formula, ref]
+        o18 = self.B.A["O18"]
+        for step, ev in enumerate(ahist):
+            self.ahist = tuple(ahist[:step + 1])
+            v0 = acc.vcount
+            before = self.snap(kind, c)
+            new = None
+            try:
+                if ev[0] == "call":
+                    new = [self.B.formula(c), self.weigh(kind, c)]
+                elif ev[0] == "mut":
+                    c = self.mutate(kind, c, ev[1])
+                    before = self.snap(kind, c)             # what the caller made it
+                else:
+                    f = results[0][0]
+                    f += self.B.formula(o18)
+                    results[0][0] = f
+                    results[0][1] = _radd(results[0][1], {o18: Fraction(1)})
+            except Exception as e:
+                self._viol(acc, "exception:argument-%s:%s:%s" % (ev[0], kind, type(e).__name__), None,
+                           "no exception", "%s: %s" % (type(e).__name__, e))
+                return False
+            acc.transitions += 1
+            acc.evaluations += 1
+            if self.snap(kind, c) != before:
+                self._viol(acc, "argument-changed:%s:%s" % (ev[0], kind), None, before, self.snap(kind, c))
+                return False
+            why = {"call": "earlier-result-after-call", "mut": "earlier-result-after-argument-update",
+                   "iadd_first": "other-result-after-iadd"}[ev[0]]
+            for i, (f, ref) in enumerate(results):
+                what = "extended-result" if (ev[0] == "iadd_first" and i == 0) else why
+                self._check_formula(f, ref, acc, None, "%s:%s" % (what, kind))
+            if new is not None:
+                updated = any(e[0] == "mut" for e in ahist[:step])
+                repeated = any(e[0] == "call" for e in ahist[:step])
+                what = ("result-after-argument-update" if updated else
+                        "result-of-repeated-call" if repeated else "result")
+                self._check_formula(new[0], new[1], acc, None, "%s:%s" % (what, kind))
+                results.append(new)
+            if acc.vcount != v0:
+                return False
+        return True
+
+    def histories(self, kind, depth):
+        """All event sequences up to the depth whose events are enabled (decided on a dry run of the argument)."""
+        out = []
+        def rec(hist):
+            if hist:
+                out.append(hist)
+            if len(hist) >= depth:
+                return
+            c = self.make(kind)
+            ncalls = 0
+            ok = True
+            for ev in hist:
+                if ev[0] == "mut":
+                    c = self.mutate(kind, c, ev[1])
+                elif ev[0] == "call":
+                    ncalls += 1
+            for ev in ARG_EVENTS:
+                if self.enabled(kind, c, ev, ncalls):
+                    rec(hist + (ev,))
+        rec(())
+        return out
+
+
+def _weigh_seq(seq):
+    out = {}
+    for count, frag in seq:
+        part = _weigh_seq(frag) if isinstance(frag, (list, tuple)) else {frag: Fraction(1)}
+        for k, v in part.items():
+            out[k] = out.get(k, 0) + Fraction(count) * v
+    return out
+
+
+def _deep(x):
+    if isinstance(x, (list, tuple)):
+        return (type(x).__name__, tuple(_deep(y) for y in x))
+    return (str(x), id(x)) if hasattr(x, "symbol") else repr(x)
+
+
+def _arg_shard(args):
+    kind, depth = args
+    m = ArgModel()
+    acc = Acc()
+    for h in m.histories(kind, depth):
+        ok = m.run_history(kind, h, acc)
+        acc.states += 1
+        acc.nontrivial += 1 if len(h) > 1 else 0
+        acc.count("argument_histories")
+        acc.outcome("arg:%s:%s" % (kind, "ok" if ok else "violation"))
+    return acc
+
+
 class Dfs(object):
     """Depth-first walk of the same graph with undo (in-place += is undone by restoring the
     formula's __dict__), so a path costs one operator call per transition instead of a replay.
@@ -727,7 +966,7 @@ def _str_shard(args):
 
 
 def _any_shard(job):
-    return _shard(job[1]) if job[0] == "op" else _str_shard(job[1])
+    return {"op": _shard, "str": _str_shard, "arg": _arg_shard}[job[0]](job[1])
 
 
 def run(ctx):
@@ -753,13 +992,18 @@ def run(ctx):
         n = len(str_cases(ctx.tier, alphabet))
         k = max(1, min(n // 1500, 64 if ctx.quick else 256))
         sjobs += [(ctx.tier, alphabet, i, k) for i in rotate(range(k), ctx.seed)]
-    ctx.pmap(_any_shard, [("op", j) for j in jobs] + [("str", j) for j in sjobs])
+    ajobs = [(kind, 5 if ctx.quick else 6) for kind in ARG_KINDS]
+    ctx.pmap(_any_shard, [("op", j) for j in jobs] + [("str", j) for j in sjobs] + [("arg", j) for j in ajobs])
     # every transition executes the real operators, every derivation the real parser
     ctx.acc.traces = ctx.acc.transitions + ctx.acc.info.get("string_derivations", 0)
+    ctx.acc.info["argument_history_depth"] = ajobs[0][1]
     ctx.acc.info["plans"] = [dict(alphabet=p[0], operands=p[1], events_per_path=p[2]) for p in plans]
 
 
 def replay(ctx, case, signature=None):
+    if "arg_history" in case:
+        ArgModel().run_history(case["arg_kind"], tuple(tuple(e) for e in case["arg_history"]), ctx.acc)
+        return
     m = OpModel(case.get("alphabet", 0))
     hist = tuple(_tt(e) for e in case["history"])
     m.build(hist, ctx.acc, check_all=True)
